@@ -256,7 +256,40 @@ impl<StorageT: PrimInt> Rule<StorageT> {
         target_state: Option<(usize, StartStateOperation)>,
         lex_flags: &LexFlags,
     ) -> Result<Rule<StorageT>, regex::Error> {
-        let mut re = RegexBuilder::new(&format!("\\A(?:{})", re_str));
+        // The text has to be a regular expression in its own right: it is pasted into a group
+        // below, and text such as `a)|(b` would close that group and escape the anchor.
+        let mut syntax = regex_syntax::ParserBuilder::new();
+        syntax
+            .octal(lex_flags.octal.unwrap())
+            .multi_line(lex_flags.multi_line.unwrap())
+            .dot_matches_new_line(lex_flags.dot_matches_new_line.unwrap());
+        if let Some(flag) = lex_flags.ignore_whitespace {
+            syntax.ignore_whitespace(flag);
+        }
+        if let Some(flag) = lex_flags.unicode {
+            syntax.unicode(flag);
+        }
+        if let Some(flag) = lex_flags.case_insensitive {
+            syntax.case_insensitive(flag);
+        }
+        if let Some(flag) = lex_flags.swap_greed {
+            syntax.swap_greed(flag);
+        }
+        if let Some(lim) = lex_flags.nest_limit {
+            syntax.nest_limit(lim);
+        }
+        syntax
+            .build()
+            .parse(&re_str)
+            .map_err(|e| regex::Error::Syntax(e.to_string()))?;
+        // (With `ignore_whitespace` a `#` starts a comment that runs to the end of the line: the
+        // line is ended before the group is closed.)
+        let anchored = if lex_flags.ignore_whitespace == Some(true) {
+            format!("\\A(?:{}\n)", re_str)
+        } else {
+            format!("\\A(?:{})", re_str)
+        };
+        let mut re = RegexBuilder::new(&anchored);
         let mut re = re
             .octal(lex_flags.octal.unwrap())
             .multi_line(lex_flags.multi_line.unwrap())
